@@ -33,12 +33,23 @@ class Invariants:
         self.rel = {}          # (head, int field, slice field) -> True while `int <= len(slice)` holds at every site
         self.rel_pending = {}
         self.int_of = {}
+        # integer fields that are also stored to in place (not only at construction) keep no interval invariant
+        self.mutated_in_place = {}
+        for b in prog.bodies.values():
+            for blk in b.blocks:
+                for st_ in blk.stmts:
+                    if st_.k == 'assign' and st_.lhs.proj:
+                        last = st_.lhs.proj[-1]
+                        if isinstance(last, dict) and 'f' in last and last.get('adt'):
+                            from .lir import strip_turbofish as _stf
+                            self.mutated_in_place[(_stf(last['adt']), last['n'])] = True
         for p, a in prog.adts.items():
             if a['crate'] in crates and a['kind'] == 'Struct':
                 sf = slice_fields(a)
-                if sf:
+                inf = int_fields(a)
+                if sf or inf:
                     self.tracked[p] = sf
-                    self.int_of[p] = int_fields(a)
+                    self.int_of[p] = inf
         self.len_inv = {}      # head -> {field: (lo, hi, set|None)}
         self.pending = {}      # recorded in the current pass
         self.changed = False
@@ -47,6 +58,21 @@ class Invariants:
     def recorder(self, an, head, val, frame, st):
         self.record_rel(an, head, lambda vi, n: val[3].get((vi, n)), frame, st)
         rec = self.pending.setdefault(head, {})
+        for (vi, iname, ity) in self.int_of.get(head, ()):
+            iv = val[3].get((vi, iname))
+            il = an.as_int(iv, st) if iv is not None else None
+            tl, th = INT_RANGES[ity]
+            if il is None:
+                cur = (tl, th, None)
+            else:
+                lo, hi = st.lb(il), st.ub(il)
+                cur = (tl if lo is None else lo, th if hi is None else hi, st.values(il))
+            old = rec.get('#' + iname)
+            if old is None:
+                rec['#' + iname] = cur + ([(frame.body.path, cur[0], cur[1])],)
+            else:
+                vs = None if old[2] is None or cur[2] is None or len(old[2] | cur[2]) > 24 else (old[2] | cur[2])
+                rec['#' + iname] = (min(old[0], cur[0]), max(old[1], cur[1]), vs, old[3] + [(frame.body.path, cur[0], cur[1])])
         for (vi, fname) in self.tracked[head]:
             fv = val[3].get((vi, fname))
             if fv is None or fv[0] != 'sref':
@@ -119,6 +145,18 @@ class Invariants:
                     st.sets[sym] = frozenset(rec[2])
             except Infeasible:
                 pass
+        for (vi, iname, ity) in self.int_of.get(head, ()):
+            rec = inv.get('#' + iname)
+            if rec is not None and not self.mutated_in_place.get((head, iname)):
+                isym = '%s.%s' % (name, iname)
+                if isym not in st.lo and isym not in st.hi:
+                    lo_, hi_ = INT_RANGES[ity]
+                    st.lo[isym] = lo_
+                    st.hi[isym] = hi_
+                try:
+                    st.set_bounds(isym, rec[0], rec[1])
+                except Infeasible:
+                    pass
         for (vi, iname, ity) in self.int_of.get(head, ()):
             for (vs, sname) in self.tracked[head]:
                 if self.rel.get((head, iname, sname), True):   # optimistic start; falsified templates are dropped (inductive)
